@@ -221,9 +221,9 @@ def etag_matches(condition, actual_etag):
     if actual_etag is None and condition:
         return False
     for etag in condition.split(","):
-        if etag.strip(" ") == "*":
+        if etag.strip(" \t") == "*":
             return True
-        if etag.strip(" ") == actual_etag:
+        if etag.strip(" \t") == actual_etag:
             return True
     return False
 
